@@ -92,6 +92,98 @@ Proof. induction a; cbn; intros H; [constructor|]. inversion H; subst. construct
 Lemma seg0 {A} (l : list A) b : seg l 0 b = firstn (Z.to_nat b) l.
 Proof. unfold seg. rewrite Z.sub_0_r. reflexivity. Qed.
 
+(* ---------- the freeing loop of restructuringLong*Queue: queues[t] = nil; nodeQueueSizes[t] = 0; t-- ---------- *)
+Lemma free_step q t : Inv q -> tailNodeIndex q + 2 <= t < Z.of_nat (length (queues q)) ->
+  exists q', restr_free false (q, t) = Ok (q', t - 1) /\ Inv q' /\ abs q' = abs q /\ hp q' = hp q /\ tp q' = tp q /\
+    tailNodeIndex q' = tailNodeIndex q /\ baseQueueSize q' = baseQueueSize q /\ length (queues q') = length (queues q) /\
+    firstn (Z.to_nat (tailNodeIndex q) + 2) (nodeQueueSizes q') = firstn (Z.to_nat (tailNodeIndex q) + 2) (nodeQueueSizes q).
+Proof.
+  intros I Ht. destruct (Inv_pos q I) as (P0 & P1 & P2 & PE & Hhs & Hts & Hh & Ht').
+  pose proof (nodes_ok_length q (I_nodes q I)) as LEN.
+  pose proof (sizes_nonneg q (I_nodes q I)) as NN.
+  pose proof (I_hni q I) as H0. pose proof (I_ht q I) as H1.
+  set (tn := Z.to_nat t).
+  set (q' := set_nodeQueueSizes (set_queues q (upd (queues q) tn None)) (upd (nodeQueueSizes q) tn 0)).
+  exists q'. split.
+  { unfold restr_free.
+    assert (SQ : setq q t None = Ok (set_queues q (upd (queues q) tn None))) by (unfold setq; rewrite zset_some by lia; reflexivity).
+    rewrite SQ, bind_Ok.
+    assert (SS : sets (set_queues q (upd (queues q) tn None)) t 0 = Ok q') by (unfold sets; sq_cbn; rewrite zset_some by lia; reflexivity).
+    rewrite SS, bind_Ok. reflexivity. }
+  assert (OFF : forall i, (i <= tn)%nat -> off (nodeQueueSizes q') i = off (nodeQueueSizes q) i).
+  { intros. unfold q'. sq_cbn. apply off_upd_ge. auto. }
+  assert (HP : hp q' = hp q).
+  { unfold hp. change (headNodeIndex q') with (headNodeIndex q). change (headQueueIndex q') with (headQueueIndex q).
+    rewrite OFF by (unfold tn; lia). reflexivity. }
+  assert (TP : tp q' = tp q).
+  { unfold tp. change (tailNodeIndex q') with (tailNodeIndex q). change (tailQueueIndex q') with (tailQueueIndex q).
+    rewrite OFF by (unfold tn; lia). reflexivity. }
+  assert (VW : firstn tn (view q') = firstn tn (view q)).
+  { unfold view, q'. sq_cbn. unfold arr. sq_cbn. rewrite map_upd. apply firstn_upd_ge. lia. }
+  assert (BND : tp q < Z.of_nat (offn (view q) tn)).
+  { rewrite (view_offn q tn (I_nodes q I)).
+    pose proof (off_mono (nodeQueueSizes q) (S (Z.to_nat (tailNodeIndex q))) tn NN ltac:(unfold tn; lia)) as OM.
+    rewrite (off_S _ _ _ Hts) in OM. unfold tp. pose proof (I_tqi q I). lia. }
+  assert (FA : forall n, (n <= Z.to_nat (tp q) + 1)%nat -> firstn n (flat q') = firstn n (flat q)).
+  { intros n Hn. unfold flat. apply (firstn_concat_agree _ _ tn); [exact VW|].
+    unfold offn. rewrite VW. fold (offn (view q) tn). lia. }
+  split; [|split; [|repeat split; auto]].
+  - dI I. constructor; unfold q'; sq_cbn; auto; try lia.
+    + rewrite upd_length. auto.
+    + unfold nodes_ok. sq_cbn. apply Forall2_upd; [exact I_nodes0|reflexivity].
+    + unfold nodup. sq_cbn. intros i j id Hi Hj.
+      rewrite nth_error_upd in Hi, Hj.
+      destruct (Nat.eqb_spec i tn); [destruct (Nat.ltb tn (length (queues q))); discriminate|].
+      destruct (Nat.eqb_spec j tn); [destruct (Nat.ltb tn (length (queues q))); discriminate|].
+      eapply I_nodup0; eauto.
+    + rewrite upd_length. lia.
+    + rewrite zget_some by lia. rewrite nth_error_upd_other by (unfold tn; lia). rewrite <- zget_some by lia. auto.
+    + rewrite zget_some by lia. rewrite nth_error_upd_other by (unfold tn; lia). rewrite <- zget_some by lia. auto.
+    + rewrite zget_some by lia. rewrite nth_error_upd_other by (unfold tn; lia). rewrite <- zget_some by lia. auto.
+    + rewrite zget_some by lia. rewrite nth_error_upd_other by (unfold tn; lia). rewrite <- zget_some by lia. auto.
+    + intros i Hi. destruct (I_alloc0 i Hi) as [id Hid]. exists id.
+      rewrite zget_some in * by lia. rewrite nth_error_upd_other by (unfold tn; lia). auto.
+    + apply Forall_upd; auto. unfold POW30. lia.
+    + fold q'. rewrite HP. rewrite FA by lia. exact I_clean0.
+  - unfold abs. rewrite HP, TP. apply seg_agree; [|lia]. apply FA. lia.
+  - unfold q'. sq_cbn. apply upd_length.
+  - unfold q'. sq_cbn. apply firstn_upd_ge. unfold tn. lia.
+Qed.
+
+Lemma free_loop : forall m q t, Inv q -> t < Z.of_nat (length (queues q)) -> tailNodeIndex q + 2 <= t - Z.of_nat m + 1 ->
+  exists q', iter m (restr_free false) (q, t) = Ok (q', t - Z.of_nat m) /\ Inv q' /\ abs q' = abs q /\ hp q' = hp q /\ tp q' = tp q /\
+    tailNodeIndex q' = tailNodeIndex q /\ baseQueueSize q' = baseQueueSize q /\ length (queues q') = length (queues q) /\
+    firstn (Z.to_nat (tailNodeIndex q) + 2) (nodeQueueSizes q') = firstn (Z.to_nat (tailNodeIndex q) + 2) (nodeQueueSizes q).
+Proof.
+  induction m as [|m IH]; intros q t I Ht Hm.
+  - cbn [iter]. exists q. replace (t - Z.of_nat 0) with t by lia. split; [reflexivity|]. split; [exact I|]. repeat split; auto.
+  - cbn [iter]. destruct (free_step q t I ltac:(lia)) as (q1 & E1 & I1 & A1 & H1 & T1 & N1 & B1 & L1 & S1).
+    rewrite E1, bind_Ok.
+    destruct (IH q1 (t - 1) I1 ltac:(lia) ltac:(lia)) as (q2 & E2 & I2 & A2 & H2 & T2 & N2 & B2 & L2 & S2).
+    exists q2. replace (t - Z.of_nat (S m)) with (t - 1 - Z.of_nat m) by lia.
+    split; [exact E2|]. split; [exact I2|]. rewrite N1 in *. repeat split; auto; congruence.
+Qed.
+
+Lemma Inv_set_queueSize q v : Inv q -> 1 <= v < POW30 -> Inv (set_queueSize q v).
+Proof. intros I Hv. dI I. constructor; sq_cbn; auto. Qed.
+
+Lemma live_allnone l : Forall (fun x : slot => x = None) l -> live l = [].
+Proof. unfold live. induction 1; cbn; auto. subst. exact IHForall. Qed.
+
+Lemma shl_queueSize bqs t T : 0 <= t <= T -> 1 <= bqs -> bqs * 2 ^ T < P31 ->
+  let sz := wrap32 (bqs * shl1_32 t) in 1 <= (if sz >? QUEUE_MAX_MALLOC_SIZE then QUEUE_MAX_MALLOC_SIZE else sz) < POW30.
+Proof.
+  intros Ht Hb G. unfold P31 in G.
+  assert (P1 : 0 < 2 ^ t) by (apply Z.pow_pos_nonneg; lia).
+  assert (P2 : 2 ^ t <= 2 ^ T) by (apply Z.pow_le_mono_r; lia).
+  assert (T31 : T < 31). { apply (Z.pow_lt_mono_r_iff 2); [lia|lia|]. change (2 ^ 31) with 2147483648. nia. }
+  assert (S1 : shl1_32 t = 2 ^ t).
+  { unfold shl1_32. rewrite Z.mod_small by lia. destruct (Z.ltb_spec t 32); [|lia]. unfold wrap32.
+    rewrite Z.mod_small by nia. lia. }
+  cbv zeta. rewrite S1. unfold wrap32. rewrite Z.mod_small by nia.
+  unfold QUEUE_MAX_MALLOC_SIZE, POW30. destruct (Z.gtb_spec (bqs * 2 ^ t + 2147483648 - 2147483648) 67108863); nia.
+Qed.
+
 Section Restructure.
 Variable q0 : sq.
 Variable time0 : Z.
@@ -155,5 +247,191 @@ Proof.
   destruct (rd_node q _ _ _ k (I_nodes q I) Hid' Hsj Hk) as (x & RD & NX).
   rewrite Hp, Nat2Z.id, FL, form_nth in NX by exact SL.
   pose proof (Cn_le F0 s) as CL.
-  unfold lwr_slot. cbv beta iota. fold q. Show. Abort.
+  destruct x as [y|].
+  -     destruct (wr_node q _ _ _ k None (I_nodes q I) (I_nodup q I) Hid' Hsj Hk) as (h' & W & HL & NO & FLw).
+    rewrite Hp, Nat2Z.id in FLw.
+    set (q1 := set_heap q h').
+    assert (I1 : Inv q1).
+    { apply (Inv_write q h' (Z.of_nat s) None I); [lia | exact NO | intros; rewrite Nat2Z.id; apply FLw; auto]. }
+    assert (F1 : flat q1 = upd (flat q) s None) by (apply FLw; reflexivity).
+    assert (A1 : abs q1 = abs q).
+    { unfold abs. change (hp q1) with (hp q). change (tp q1) with (tp q). rewrite F1. apply seg_upd_after; lia. }
+    assert (LW1 : LWInv st (set_locks l q1)).
+    { destruct LW as [_ B LN ND IDX CNT]. constructor; cbn [lw_locks lw_count lw_free lw_time set_locks]; auto.
+      - rewrite A1. exact ND.
+      - intros i z Hi. rewrite A1 in Hi. exact (IDX i z Hi).
+      - rewrite A1. exact CNT. }
+    assert (NI : ~ In y (ids (lw_abs (set_locks l q1)))).
+    { unfold lw_abs. cbn [lw_locks set_locks]. rewrite A1, AB. apply notin_prefix; auto. }
+    assert (G : Z.of_nat (length (queues (lw_locks (set_locks l q1)))) + 1 < P31).
+    { cbn [lw_locks set_locks]. change (queues q1) with (queues q). rewrite Q. exact LEN0. }
+    destruct (lw_push_spec st (set_locks l q1) y LW1 NI G) as (l2 & st2 & E2 & LW2 & A2 & C2 & FR2 & TM2 & _ & HP2 & TP2 & BQ2 & FRM).
+    cbn [lw_locks set_locks] in E2, A2, C2, FR2, TM2, HP2, TP2, BQ2, FRM.
+    exists st2, l2. split.
+    { unfold lwr_slot. cbv beta iota. fold q. rewrite GQ, bind_Ok. cbv beta. rewrite RD, bind_Ok. cbv beta iota.
+      rewrite bind_Ok. cbv beta. rewrite W, bind_Ok. cbv beta. exact E2. }
+    destruct (Inv_pos q I) as (P0 & P1 & P2 & _ & _ & Hts & _ & _).
+    pose proof (sizes_nonneg q (I_nodes q I)) as NN.
+    assert (PRE : tailQueueIndex q1 + 1 < tailQueueSize q1 \/ exists id', zget (queues q1) (tailNodeIndex q1 + 1) = Some (Some id')).
+    { change (tailQueueIndex q1) with (tailQueueIndex q). change (tailQueueSize q1) with (tailQueueSize q).
+      change (tailNodeIndex q1) with (tailNodeIndex q). change (queues q1) with (queues q).
+      destruct (Z.lt_ge_cases (tailQueueIndex q + 1) (tailQueueSize q)); [left; auto|right].
+      assert (TN : tailNodeIndex q + 1 <= T).
+      { destruct (Z.le_gt_cases (tailNodeIndex q + 1) T); auto. exfalso.
+        pose proof (off_mono (nodeQueueSizes q) (S (Z.to_nat T)) (S (Z.to_nat (tailNodeIndex q))) NN
+                     ltac:(pose proof (I_hni q0 I0); pose proof (I_ht q0 I0); unfold T in *; lia)) as OM.
+        rewrite (off_S _ _ _ Hts) in OM. rewrite SZ in OM at 1. unfold T in OM. rewrite (off_S _ _ _ Hts0) in OM.
+        pose proof (I_tqi q I). pose proof (I_tqi q0 I0). unfold tp in TP. unfold tp0, tp in Lt. rewrite SZ in *. lia. }
+      destruct (I_alloc q0 I0 (tailNodeIndex q + 1) ltac:(pose proof (I_hni q I); pose proof (I_ht q I); unfold T in TN; lia)) as [id' Hid2].
+      exists id'. rewrite Q. exact Hid2. }
+    destruct (FRM PRE) as (Q2' & SZ2 & FL2).
+    change (tp q1) with (tp q) in *. change (hp q1) with (hp q) in *. change (queues q1) with (queues q) in *.
+    change (nodeQueueSizes q1) with (nodeQueueSizes q) in *. change (baseQueueSize q1) with (baseQueueSize q) in *.
+    constructor; auto; try congruence.
+    + rewrite TP2, TP, (Cn_S_some F0 s y NX), app_length. cbn [length]. lia.
+    + rewrite FL2, F1, TP, Nat2Z.id, FL. symmetry. apply form_S_some. exact NX.
+    + cbn in FR2. congruence.
+    + cbn in TM2. congruence.
+  - exists st, l. split.
+    { unfold lwr_slot. cbv beta iota. fold q. rewrite GQ, bind_Ok. cbv beta. rewrite RD, bind_Ok. reflexivity. }
+    constructor; auto.
+    + rewrite (Cn_S_none F0 s NX). exact TP.
+    + rewrite (form_S_none F0 s NX). exact FL.
+Qed.
+
+Lemma inner_steps (bound : sq -> res Z) j : forall n k s st l fuel b,
+  RI s st l -> b = k + Z.of_nat n ->
+  (forall q, nodeQueueSizes q = nodeQueueSizes q0 -> bound q = Ok b) ->
+  (forall i, (i < n)%nat -> coord q0 j (k + Z.of_nat i) (Z.of_nat (s + i))) ->
+  Z.of_nat (s + n) <= tp0 -> (n < fuel)%nat ->
+  exists st' l', lwr_inner fuel bound j k (l, st) = Ok (l', st') /\ RI (s + n) st' l'.
+Proof.
+  induction n as [|n IH]; intros k s st l fuel b R Hb HB HC HT HF; (destruct fuel as [|fuel]; [lia|]).
+  - cbn [lwr_inner fst]. rewrite (HB _ (RI_sz _ _ _ R)), bind_Ok. subst b.
+    replace (k <? k + Z.of_nat 0) with false by (symmetry; apply Z.ltb_ge; lia).
+    exists st, l. rewrite Nat.add_0_r. auto.
+  - cbn [lwr_inner fst]. rewrite (HB _ (RI_sz _ _ _ R)), bind_Ok. subst b.
+    replace (k <? k + Z.of_nat (S n)) with true by (symmetry; apply Z.ltb_lt; lia).
+    destruct (slot_step s st l j k R ltac:(lia)) as (st1 & l1 & E1 & R1).
+    { specialize (HC O ltac:(lia)). rewrite Z.add_0_r, Nat.add_0_r in HC. exact HC. }
+    rewrite E1, bind_Ok.
+    destruct (IH (k + 1) (S s) st1 l1 fuel (k + Z.of_nat (S n)) R1 ltac:(lia)) as (st2 & l2 & E2 & R2); auto.
+    + intros i Hi. specialize (HC (S i) ltac:(lia)).
+      replace (k + 1 + Z.of_nat i) with (k + Z.of_nat (S i)) by lia. replace (S s + i)%nat with (s + S i)%nat by lia. exact HC.
+    + lia.
+    + lia.
+    + exists st2, l2. split; [exact E2|]. replace (s + S n)%nat with (S s + n)%nat by lia. exact R2.
+Qed.
+
+Definition posn (j : Z) : nat := Z.to_nat (off (nodeQueueSizes q0) (Z.to_nat j)).
+
+Lemma posn_S j s : 0 <= j -> nth_error (nodeQueueSizes q0) (Z.to_nat j) = Some s -> 0 <= s -> posn (j + 1) = (posn j + Z.to_nat s)%nat.
+Proof.
+  intros J H S0. unfold posn. replace (Z.to_nat (j + 1)) with (S (Z.to_nat j)) by lia. rewrite (off_S _ _ _ H).
+  pose proof (off_nonneg _ (Z.to_nat j) (sizes_nonneg q0 (I_nodes q0 I0))). lia.
+Qed.
+
+Lemma posn_le_tp0 j : 0 <= j <= T -> Z.of_nat (posn j) <= tp0.
+Proof.
+  intros H. unfold posn. pose proof (sizes_nonneg q0 (I_nodes q0 I0)) as NN.
+  pose proof (off_nonneg _ (Z.to_nat j) NN). rewrite Z2Nat.id by lia.
+  pose proof (off_mono _ (Z.to_nat j) (Z.to_nat T) NN ltac:(lia)). unfold tp0, tp. fold T. pose proof (I_tqi q0 I0). lia.
+Qed.
+
+Lemma node_step j st l : 0 <= j < T -> RI (posn j) st l ->
+  exists st' l', lwr_node (l, st, j) = Ok (l', st', j + 1) /\ RI (posn (j + 1)) st' l'.
+Proof.
+  intros J R. destruct (Inv_node q0 j I0 ltac:(unfold T in J; lia)) as (id & sj & Q1 & S1 & S2).
+  pose proof (zget_inv _ _ _ S1) as (_ & S1' & _).
+  pose proof (sizes_nonneg q0 (I_nodes q0 I0)) as NN.
+  pose proof (off_nonneg _ (Z.to_nat j) NN) as ON.
+  unfold lwr_node. cbn [fst]. unfold gets at 1. rewrite (RI_sz _ _ _ R), S1. cbn [lift]. rewrite bind_Ok.
+  destruct (inner_steps (fun q => gets q j) j (Z.to_nat sj) 0 (posn j) st l (Z.to_nat sj + 1) sj R ltac:(lia)) as (st' & l' & E & R').
+  - intros q Hq. unfold gets. rewrite Hq, S1. reflexivity.
+  - intros i Hi. split; [lia|]. exists sj. split; auto. split; [lia|]. unfold posn. lia.
+  - rewrite <- (posn_S j sj) by (auto; lia). apply posn_le_tp0. lia.
+  - lia.
+  - exists st', l'. rewrite E, bind_Ok. split; [reflexivity|]. rewrite (posn_S j sj) by (auto; lia). exact R'.
+Qed.
+
+Lemma outer_steps : forall m j st l, 0 <= j -> j + Z.of_nat m <= T -> RI (posn j) st l ->
+  exists st' l', iter m lwr_node (l, st, j) = Ok (l', st', j + Z.of_nat m) /\ RI (posn (j + Z.of_nat m)) st' l'.
+Proof.
+  induction m as [|m IH]; intros j st l J JT R.
+  - cbn [iter]. exists st, l. rewrite Z.add_0_r. auto.
+  - cbn [iter]. destruct (node_step j st l ltac:(lia) R) as (st1 & l1 & E1 & R1). rewrite E1, bind_Ok.
+    destruct (IH (j + 1) st1 l1 ltac:(lia) ltac:(lia) R1) as (st2 & l2 & E2 & R2).
+    exists st2, l2. replace (j + Z.of_nat (S m)) with (j + 1 + Z.of_nat m) by lia. auto.
+Qed.
+
+Lemma final_steps st l : RI (posn T) st l ->
+  exists st' l', lwr_inner (Z.to_nat (tailQueueIndex q0) + 1) (fun _ => Ok (tailQueueIndex q0)) T 0 (l, st) = Ok (l', st') /\
+                 RI (Z.to_nat tp0) st' l'.
+Proof.
+  intros R. destruct (Inv_pos q0 I0) as (P0 & P1 & P2 & _ & _ & Hts & _ & _).
+  pose proof (sizes_nonneg q0 (I_nodes q0 I0)) as NN.
+  pose proof (off_nonneg _ (Z.to_nat T) NN) as ON. pose proof (I_tqi q0 I0) as TQ. pose proof (I_hni q0 I0). pose proof (I_ht q0 I0).
+  assert (E : (posn T + Z.to_nat (tailQueueIndex q0))%nat = Z.to_nat tp0). { unfold posn, tp0, tp. fold T. lia. }
+  destruct (inner_steps (fun _ => Ok (tailQueueIndex q0)) T (Z.to_nat (tailQueueIndex q0)) 0 (posn T) st l
+              (Z.to_nat (tailQueueIndex q0) + 1) (tailQueueIndex q0) R ltac:(lia)) as (st' & l' & E' & R').
+  - reflexivity.
+  - intros i Hi. split; [unfold T; lia|]. exists (tailQueueSize q0). split; [exact Hts|]. split; [lia|]. unfold posn. lia.
+  - rewrite E. lia.
+  - lia.
+  - exists st', l'. rewrite <- E. auto.
+Qed.
+
+Hypothesis B0 : 1 <= baseQueueSize q0.
+Hypothesis G0 : baseQueueSize q0 * 2 ^ T < P31.
+
+Lemma reset_RI st : exists q1, reset_cursors q0 = Ok q1 /\ RI 0 st (mkLW q1 time0 0 0).
+Proof.
+  destruct (Inv_node q0 0 I0 ltac:(pose proof (I_hni q0 I0); pose proof (I_ht q0 I0); lia)) as (id & s0 & Q1 & S1 & S2).
+  unfold reset_cursors. unfold getq, gets. sq_cbn. rewrite Q1, S1. cbn [lift]. rewrite !bind_Ok. sq_cbn.
+  eexists. split; [reflexivity|].
+  set (q1 := set_tailQueueSize _ _).
+  assert (HP1 : hp q1 = 0) by reflexivity.
+  assert (TP1 : tp q1 = 0) by reflexivity.
+  assert (I1 : Inv q1).
+  { pose proof I0 as I. dI I. constructor; unfold q1; sq_cbn; auto; try lia.
+    - intros i Hi. assert (i = 0) by lia. subst i. exists id. exact Q1.
+    - fold q1. rewrite HP1. constructor. }
+  assert (A1 : abs q1 = []). { unfold abs. rewrite HP1, TP1. apply seg_empty. lia. }
+  constructor; cbn [lw_locks lw_count lw_free lw_time]; auto.
+  - constructor; cbn [lw_locks lw_count lw_free lw_time]; auto.
+    + change (queues q1) with (queues q0). lia.
+    + rewrite A1. constructor.
+    + intros i x Hi. rewrite A1 in Hi. destruct i; discriminate.
+Qed.
+
+Lemma live_prefix_tp0 : Cn F0 (Z.to_nat tp0) = live (abs q0).
+Proof.
+  destruct (Inv_pos q0 I0) as (P0 & P1 & P2 & _). unfold Cn, abs, seg, F0, tp0.
+  rewrite <- (firstn_skipn (Z.to_nat (hp q0)) (firstn (Z.to_nat (tp q0)) (flat q0))), live_app.
+  rewrite firstn_firstn. replace (Nat.min (Z.to_nat (hp q0)) (Z.to_nat (tp q0))) with (Z.to_nat (hp q0)) by lia.
+  rewrite (live_allnone _ (I_clean q0 I0)). cbn [app]. f_equal.
+  rewrite skipn_firstn_comm. f_equal. lia.
+Qed.
+
+Lemma restructure_q0 st l : lw_locks l = q0 -> lw_time l = time0 ->
+  exists l' st', lw_restructure st l = Ok (l', st') /\ LWInv st' l' /\ lw_abs l' = live (abs q0) /\
+                 lw_free l' = 0 /\ lw_time l' = time0.
+Proof.
+  intros EL ET. pose proof (I_hni q0 I0) as H0. pose proof (I_ht q0 I0) as H1. pose proof (I_tni q0 I0) as H2.
+  destruct (reset_RI st) as (q1 & E1 & R1).
+  destruct (outer_steps (Z.to_nat T) 0 st _ ltac:(lia) ltac:(lia) R1) as (st2 & l2 & E2 & R2).
+  rewrite Z.add_0_l, Z2Nat.id in E2, R2 by (unfold T; lia).
+  destruct (final_steps st2 l2 R2) as (st3 & l3 & E3 & R3).
+  pose proof (RI_abs _ _ _ R3) as A3. rewrite live_prefix_tp0 in A3.
+  destruct R3 as [LW3 Q3 SZ3 BQ3 HP3 TP3 FL3 FR3 TM3]. set (q3 := lw_locks l3) in *.
+  pose proof (L_inv _ _ LW3) as I3. fold q3 in I3.
+  assert (TN3 : tailNodeIndex q3 <= T).
+  { destruct (Z.le_gt_cases (tailNodeIndex q3) T); auto. exfalso.
+    destruct (Inv_pos q3 I3) as (P0 & P1 & P2 & _ & _ & Hts & _ & _).
+    destruct (Inv_pos q0 I0) as (R0 & R1' & R2' & _ & _ & Hts0 & _ & _).
+    pose proof (sizes_nonneg q3 (I_nodes q3 I3)) as NN.
+    pose proof (off_mono (nodeQueueSizes q3) (S (Z.to_nat T)) (Z.to_nat (tailNodeIndex q3)) NN ltac:(lia)) as OM.
+    rewrite SZ3 in OM at 1. unfold T in OM at 1. rewrite (off_S _ _ _ Hts0) in OM.
+    pose proof (Cn_le F0 (Z.to_nat tp0)). pose proof (I_tqi q3 I3). pose proof (I_tqi q0 I0).
+    unfold tp in TP3. unfold tp0, tp in H3. rewrite SZ3 in *. fold T in H3. Show. Abort.
 End Restructure.
